@@ -165,8 +165,8 @@ def identification_key(identification):
 def build_graph_incremental(g: dict, probe: bool = True, strict_probes: bool = False):
     """The same graph built the way a user grows one: an empty NxMixedGraph, then add_node / add_directed_edge /
     add_undirected_edge one at a time (edges first, so that nodes also appear implicitly), with read-only queries
-    (districts, is_connected, ancestors, topological order) issued between the mutations.  Any caching inside the
-    graph object therefore sees every intermediate state.  Must be indistinguishable from build_graph(g)."""
+    (districts, is_connected, ancestors, topological order, skeleton, moral graph, latent-variable DAG) issued between
+    the mutations.  Any caching inside the graph object therefore sees every intermediate state.  Must be indistinguishable from build_graph(g)."""
     from y0.graph import NxMixedGraph
 
     graph = NxMixedGraph()
@@ -186,6 +186,12 @@ def build_graph_incremental(g: dict, probe: bool = True, strict_probes: bool = F
             if len(graph.nodes()) > 0:
                 if k % 3 == 0:
                     graph.is_connected()
+                if k % 3 == 1:
+                    graph.disorient()
+                if k % 4 == 1:
+                    graph.moralize()
+                if k % 5 == 2:
+                    graph.to_latent_variable_dag()
                 for j, node in enumerate(list(graph.nodes())):
                     if (j + k) % 3 == 0:
                         graph.ancestors_inclusive(node)
